@@ -162,6 +162,9 @@ class Module:
         with open(path, 'rb') as f:
             self.src = f.read().decode('utf-8')
         self.tree = ast.parse(self.src, filename=path)
+        if os.environ.get('XRSA_NO_NORMALFORM', '0') != '1':
+            from .normalform import normalise_module
+            self.normalised = normalise_module(self.tree)       # N1: tests held in a local are put back (normalform.py)
         self.funcs = FuncTable(self)       # top-level name -> Func (imported package functions are found too)
         self.allfuncs = []    # all Funcs incl. nested and lambdas
         self.imports = {}     # local name -> ('mod', dotted) | ('attr', dotted, attr)
